@@ -501,7 +501,34 @@ def native_witness(ctx):
     return core.run_native(script, {'seed': ctx.seed, 'rounds': 60}, timeout=400)
 
 
+def depends_on_contract():
+    """(D0) Job.depends_on records EXACTLY what it is given: after the call every argument - the job itself included, so that a
+    self-dependency reaches the cycle check of (A) - has been added to self._dependencies, one add per argument."""
+    def add(eng, st, args, kw, node):
+        st.env['ADDED'] = z3.Store(st.env['ADDED'], to_z3(args[-1], 'U'), z3.BoolVal(True))
+        st.env['n_ADD'] = st.env['n_ADD'] + 1
+        return None
+
+    return Contract(
+        path=JOB, qualname='Job.depends_on', types={'j': 'U'}, extra_inputs={'jobs': 'List[U]', 'ADDED': 'Array[U, bool]'},
+        calls={'self._dependencies.add': add}, ghost_init={'n_ADD': '0'},
+        loops={0: LoopSpec(index='k', invariants=[
+            ('arguments-so-far-are-recorded', 'forall(lambda q: implies(0 <= q < k, ADDED[jobs[q]]))'),
+            ('one-add-per-argument-so-far', 'n_ADD == k'),
+        ], modifies=['ADDED', 'n_ADD'])},
+        ensures=[
+            ('every-argument-is-recorded-as-a-dependency-the-job-itself-included', 'forall(lambda q: implies(0 <= q < len(jobs), ADDED[jobs[q]]))'),
+            ('one-add-per-argument', 'n_ADD == len(jobs)'),
+        ],
+        raises={},
+        canaries=[('never-adds', 'n_ADD == 0')],
+    )
+
+
 def build(ctx):
+    eng = pyvc.Engine(ctx, depends_on_contract())
+    eng.run()
+    _strict(ctx, eng, 'depends-on')
     eng = pyvc.Engine(ctx, numbering())
     eng.run()
     _strict(ctx, eng, 'numbering')
